@@ -174,3 +174,58 @@ def _pfc_post(A, r):
 
 contract(f"{SK}::_BaseWindowForecaster._predict_fixed_cutoff", "C03,C12", cases=["rel", "abs"], inputs=_pfc_inputs,
          ensures=[("one-value-per-step-labelled-cutoff-plus-step", _pfc_post)], frame=lambda A: [A.self])
+
+
+# ----------------------------------------------------------------------------- window forecasters: in-sample / out-of-sample dispatch
+def _bwp_inputs(B, case):
+    obj, y = fitted_forecaster(B, abstract_methods=(), free_cutoff=True)
+    g = z3.Function("forecast_at_label", z3.IntSort(), z3.RealSort())
+    c = obj.attrs["_cutoff"]
+    calls = {"oos": [], "ins": []}
+
+    def mk(which):
+        def f(I, args, kwargs):
+            fh = args[0]
+            calls[which].append((fh, dict(kwargs)))
+            v = vals(fh)
+            rel = fh.attrs["_is_relative"]
+            labels = SArr((v.len,), lambda i: ops.simp(Z(c) + Z(v.fn(i))) if rel else v.fn(i), "int", "Int64Index")
+            return SSeries(labels, SArr((v.len,), lambda i: g(Z(labels.fn(i))), "real", "ndarray"))
+        f._pyvc_native = True
+        return f
+    obj.attrs["_predict_fixed_cutoff"] = mk("oos")
+    obj.attrs["_predict_in_sample"] = mk("ins")
+    fh = sym_fh(B, "fh_new", relative=True, nonempty=True, oos=(case == "oos"))
+    if case == "ins":
+        B.assume(ForAll(lambda i: Z(vals(fh).fn(i)) <= 0, 0, vals(fh).len, "i"))
+    obj.ghost = dict(g=g, calls=calls)
+    return {"self": obj, "fh": fh, "X": None}
+
+
+def _bwp_post(A, r):
+    """one value per requested step, in horizon order, labelled cutoff + step; steps <= 0 are answered by the in-sample path,
+    steps > 0 by the fixed-cutoff path, each asked at most once and only for its own steps"""
+    if not isinstance(r, SSeries):
+        return False
+    gh = A.self.ghost
+    fhv = vals(A.fh)
+    c = Z(A.self.attrs["_cutoff"])
+    n = fhv.len
+    conds = [Eq(r.index.len, n), Eq(r.values.len, n),
+             ForAll(lambda i: And(Eq(r.index.fn(i), ops.simp(c + Z(fhv.fn(i)))), Eq(r.values.fn(i), gh["g"](c + Z(fhv.fn(i))))), 0, n, "i")]
+    for which, pos in (("oos", True), ("ins", False)):
+        cl = gh["calls"][which]
+        if len(cl) > 1:
+            return False
+        for fh, kw in cl:
+            v = vals(fh)
+            conds.append(ForAll(lambda i: (Z(v.fn(i)) > 0) if pos else (Z(v.fn(i)) <= 0), 0, v.len, "i"))
+            conds.append(fh.attrs["_is_relative"] is True)
+    return And(*conds)
+
+
+contract(f"{SK}::_BaseWindowForecaster._predict", "C03,C12", cases=["oos", "ins", "mixed"], inputs=_bwp_inputs,
+         ensures=[("in-sample-then-out-of-sample-one-value-per-step-labelled-cutoff-plus-step", _bwp_post, {"modular": False})],
+         frame=lambda A: [A.self],
+         notes=["_predict_fixed_cutoff / _predict_in_sample are abstract here (each returns a series on cutoff + its own steps); relative "
+                "horizons; the horizon conversions enter through their C02 contracts"])
